@@ -9,4 +9,5 @@ theorem dilithiumjs_DilithiumVerify : Gen.Skel.dilithiumjs_DilithiumVerify = "d3
 theorem dilithiumjs_GetDilithiumAddressFromPK : Gen.Skel.dilithiumjs_GetDilithiumAddressFromPK = "dd8eeea88bb99448" := by decide
 theorem dilithiumjs_IsValidDilithiumAddress : Gen.Skel.dilithiumjs_IsValidDilithiumAddress = "1c2621bcfc2a3521" := by decide
 theorem dilithiumjs_clearPrefix0x : Gen.Skel.dilithiumjs_clearPrefix0x = "6cec2404e4ceb690" := by decide
+theorem xmssjs_clearPrefix0x : Gen.Skel.xmssjs_clearPrefix0x = "6cec2404e4ceb690" := by decide
 end Qrl.Tie.C16
